@@ -24,7 +24,7 @@ RULE = ('each case index = 4 generated routines (vlib/dfgen.py: kernel + 0-2 cal
         'evaluation; distinct = hash of the generated sources.')
 NSUB = 4
 CASES = {'quick': 125, 'thorough': 2000}
-MIN_NONTRIVIAL = {'quick': 80, 'thorough': 1400}
+MIN_NONTRIVIAL = {'quick': 50, 'thorough': 500}
 ANCHORS = ['loki/analyse/dataflow_analysis.py', 'loki/analyse/abstract_dfa.py']
 REQUIRED_REACH = ['visit_CallStatement', 'visit_MaskedStatement', 'visit_MultiConditional', 'visit_Associate',
                   'visit_Loop', 'visit_WhileLoop', 'visit_Conditional', 'visit_Assignment',
@@ -36,7 +36,7 @@ ASSUMPTIONS = ['gfortran 12 -O0 -fcheck=all is the reference semantics used to v
                'additionally traps undefined reads, out-of-bounds subscripts and overflow)',
                'intent(out) dummies are undefined on entry of the callee (not "holding a value")',
                'reads that Fortran may skip (short-circuit) are recorded: .and./.or./merge evaluate all operands']
-BUDGET_S = {'quick': 500, 'thorough': 3000}
+BUDGET_S = {'quick': 500, 'thorough': 5400}
 CASE_TIMEOUT_S = 240
 
 CHECKS = ('defines', 'uses', 'live')
